@@ -247,6 +247,9 @@ impl<T, Ptr: PointerFamily> MetaSlotMap<T, Ptr> {
         let entry = self.idx_to_data_free_list[idx];
         if entry.previous != INVALID {
             self.idx_to_data_free_list[entry.previous].next = entry.next;
+        } else if self.idx_to_data_free_list_head == idx {
+            // the claimed index was the head of the free list
+            self.idx_to_data_free_list_head = entry.next;
         }
         if entry.next != INVALID {
             self.idx_to_data_free_list[entry.next].previous = entry.previous;
